@@ -30,18 +30,20 @@ func TestC11(t *testing.T) { Check(t, "C11") }
 func TestC13(t *testing.T) { Check(t, "C13") }
 func TestC17(t *testing.T) { Check(t, "C17") }
 
-// TestFuzzC06 is the engine-F step of a thorough C06 run (started by the driver after the rapid shards).
-func TestFuzzC06(t *testing.T) {
-	if os.Getenv("VERIF_FUZZ") == "" {
+// TestFuzzCampaign is the engine-F step of a thorough run of the properties in FuzzProps (started by the driver after
+// the rapid shards; $VERIF_FUZZ_PROP names the property).
+func TestFuzzCampaign(t *testing.T) {
+	prop := os.Getenv("VERIF_FUZZ_PROP")
+	if os.Getenv("VERIF_FUZZ") == "" || !FuzzProps[prop] {
 		t.Skip()
 	}
-	r := getRecorder(t, "C06")
+	r := getRecorder(t, prop)
 	defer r.flush(t)
 	defer pipeline.CleanupCases()
 	if r.s.Infra != "" {
 		t.Skipf("infrastructure: %s", r.s.Infra)
 	}
-	msg, rp, err := FuzzCampaign(r.tools, r, "C06")
+	msg, rp, err := FuzzCampaign(r.tools, r, prop)
 	if err != nil {
 		// a campaign that cannot run is a note in the evidence, never a verdict
 		r.Class("fuzz_campaign_inconclusive")
@@ -51,7 +53,7 @@ func TestFuzzC06(t *testing.T) {
 	if msg != "" {
 		dir := replayDir()
 		_ = os.MkdirAll(dir, 0o755)
-		name := filepath.Join(dir, "C06-fuzz.json")
+		name := filepath.Join(dir, prop+"-fuzz.json")
 		b, _ := json.MarshalIndent(rp, "", " ")
 		_ = os.WriteFile(name, b, 0o644)
 		r.mu.Lock()
